@@ -220,7 +220,16 @@ same limit*), `get_recursion`, `get_error`, `get_traceback`, `set_recursion` to 
 limit has – are the identity on the state and on the definitions.  So every theorem above,
 being stated for an arbitrary `env`, holds for the limit in force at each evaluation of a
 history that raises and lowers the limit between evaluations; what has to be shown is that the
-state such a history leaves is one the theorems apply to. -/
+state such a history leaves is one the theorems apply to.
+
+`Env.maxdepth = 0`: in the model and after `mx.set_recursion(0)` alike the limit 0 admits ONE frame
+(`CallStack.append` tests `len(self) > maxdepth`; `evalTop` gives `runN` the fuel `maxdepth + 1`).  But
+for that one value the administrative calls are NOT the identity in modelx: `start_stacktrace` /
+`stop_stacktrace` rebuild the call stack with `maxdepth=self.callstack.maxdepth`, and
+`CallStack.__init__` tests `if maxdepth:` – zero is falsy, the limit silently becomes the default
+(100000).  `admin_changes_nothing` is therefore a statement about limits ≥ 1 (all the harness
+configures); witness `notes/EXECP-repro_limit0_trace_session.py`, one-line candidate repair
+`notes/EXECP-candidate_limit0.diff` (`if maxdepth is not None:`). -/
 
 def withMaxdepth (env : Env) (k : Nat) : Env := { env with maxdepth := k }
 
